@@ -212,6 +212,7 @@ type gen struct {
 	nextID int64
 	count  int
 	max    int
+	neg    bool
 }
 
 func (g *gen) size() int64 {
@@ -227,10 +228,10 @@ func (g *gen) size() int64 {
 
 func (g *gen) attrs(n *gnode) {
 	n.workers, n.bufsz = g.size(), g.size()
-	if g.r.Chance(2) {
+	if g.neg && g.r.Chance(15) { // negative sizes are outside C13's quantifier; a few cases carry them
 		n.workers = -g.r.Range(1, 3)
 	}
-	if g.r.Chance(2) {
+	if g.neg && g.r.Chance(15) {
 		n.bufsz = -g.r.Range(1, 3)
 	}
 	n.id = -1
@@ -416,6 +417,7 @@ func consOf(name int64) int64 {
 func Gen(r *sx.Rng, idx int, focus string) sx.Tree {
 	g := &gen{r: r, nextID: 50}
 	g.max = sx.Pick(r, 1, 3, 6, 10, 14, 14)
+	g.neg = r.Chance(4)
 	pre := int64(0)
 	src := srcPalette[r.Intn(len(srcPalette))]
 	if r.Chance(60) {
@@ -454,7 +456,9 @@ func Gen(r *sx.Rng, idx int, focus string) sx.Tree {
 	case 0, 1, 2, 3:
 		timeout = r.Range(1, 90)
 	case 4:
-		timeout = -r.Range(1, 5)
+		if g.neg {
+			timeout = -r.Range(1, 5)
+		}
 	case 5:
 		timeout = sx.Pick(r, int64(1), 9, 10, 11)
 	}
